@@ -249,8 +249,7 @@ SDispatch(t) == /\ pc[t] = "s_dispatch"
                         /\ data' = [data EXCEPT ![t] = None]
                         /\ UNCHANGED cb
                 /\ dispatched' = [dispatched EXCEPT ![data[t]] = @ + 1]
-                /\ transit' = IF Handoff /\ data[t] \notin cb THEN transit - 1 ELSE transit
-                /\ UNCHANGED <<U2x, ready, value>>
+                /\ UNCHANGED <<U2, ready, value>>
 
 DExpired(t) == /\ pc[t] = "d_expired"
                /\ pc' = [pc EXCEPT ![t] = "d_publish"]
@@ -261,11 +260,17 @@ DPublish(t) == /\ pc[t] = "d_publish"
                /\ value' = [value EXCEPT ![data[t]] = data[t]]
                /\ data' = [data EXCEPT ![t] = None]
                /\ pc' = [pc EXCEPT ![t] = AfterDispatch(t)]
-               /\ transit' = IF Handoff THEN transit - 1 ELSE transit
-               /\ UNCHANGED <<U2x, cb, dispatched>>
+               /\ UNCHANGED <<U2, cb, dispatched>>
 
-\* repaired serve(): after the dispatch, `with self._recv_event: notify_all()` once more
-DNCondIn(t) == CondIn(t, "d_ncond_in", "d_notify")
+\* repaired code, Connection._reply_published(): called by AsyncResult.__call__ right after `_is_ready = True` (before the
+\* result's callbacks run) and by serve() for a reply nobody took: `with self._recv_event:` the reply is taken off the
+\* list of replies in transit and the waiters are notified once more
+DNCondIn(t) == /\ pc[t] = "d_ncond_in"
+               /\ condlock = None
+               /\ condlock' = t
+               /\ transit' = transit - 1          \* `self._replies_in_transit.remove(...)`, first thing under the condition's lock
+               /\ pc' = [pc EXCEPT ![t] = "d_notify"]
+               /\ UNCHANGED <<U1x, chan, recvlock, waiters, notified, data, receivedBy, stalls, expired, woke>>
 DNotify(t) == /\ pc[t] = "d_notify"
               /\ notified' = notified \cup waiters
               /\ waiters' = {}
